@@ -326,26 +326,26 @@ def iteratePostOrder (isList : Nat → Bool) (g : Nat) (h : Heap) (it : Iter) (t
     | .error e => .error e
     | .ok (h2, it2) => postOrderIterator g h2 { it2 with next := .postOrder, curr := tree }
 
+/-- `if (iter.parent) { if (iter.parent->right == n) iter.parent->right = NULL; else iter.parent->left = (bintree_node_t *) 1; }` -/
+def patchParent (h : Heap) (parent : Ptr) (n : Nat) : Except Err Heap :=
+  match parent with
+  | none => .ok h
+  | some p =>
+    match h p with
+    | none => .error (.dead p)
+    | some pn => if pn.right = some n then .ok (setRight h p none) else .ok (setLeftRaw h p none true)
+
 /-- the body and continuation of the `for` loop of `bintree_free`, from the loop test on; the
     deallocator log is accumulated in `log` -/
 def freeLoop (isList : Nat → Bool) (g : Nat) : Nat → Heap → Iter → Ptr → List Nat → Except Err (Heap × List Nat)
   | 0, _, _, _, _ => .error .fuel
   | _ + 1, h, _, none, log => .ok (h, log)
   | f + 1, h, it, some n, log =>
-    -- dealloc(n)
+    -- dealloc(n): the deallocator is handed a live node (anything else is a double free) and really frees it
     match h n with
     | none => .error (.dead n)
     | some _ =>
-      let h1 := kill h n
-      -- if (iter.parent) { if (iter.parent->right == n) iter.parent->right = NULL; else iter.parent->left = 1; }
-      let patched : Except Err Heap :=
-        match it.parent with
-        | none => .ok h1
-        | some p =>
-          match h1 p with
-          | none => .error (.dead p)
-          | some pn => if pn.right = some n then .ok (setRight h1 p none) else .ok (setLeftRaw h1 p none true)
-      match patched with
+      match patchParent (kill h n) it.parent n with
       | .error e => .error e
       | .ok h2 =>
         match next isList g h2 it with
